@@ -136,6 +136,14 @@ type gateCase struct {
 	// arrives while that notification's handler is still running. Notifications are handled synchronously on
 	// the session's queue, so the answers, the handlers that ran and the session state are the sequential ones.
 	hold bool
+	// holdinit: a CALL handler held across the next envelope. The receiving middleware parks every `initialize`
+	// that reaches it (before the method's function ran, i.e. before anything was accepted) until the next envelope
+	// has been written and the session is quiescent; what is visible of that next envelope at this point is the
+	// `mid` record (initialize is handled synchronously: the envelope waits in the queue, nothing of it is visible),
+	// then initialize is let go and both envelopes' records are written (answers by id; the handler entries after
+	// the parked one and the session state belong to the second envelope — the generator makes the envelope after
+	// an initialize one that cannot change session state).
+	holdinit bool
 }
 
 // ---------------------------------------------------------------------------------------------
@@ -980,7 +988,35 @@ func (g *gateGen) serverCase(id string) gateCase {
 	// a quarter of the histories run with the notification handlers held (drawn last: the envelopes of a seed
 	// are the same with and without this axis)
 	c.hold = rng.Intn(100) < 25
+	if !c.hold && rng.Intn(100) < 20 {
+		c.holdinit = true
+		gateSeparateInit(g, &c)
+	}
 	return c
+}
+
+// gateSeparateInit: in a holdinit case the envelope after an initialize must be one that cannot change session
+// state (its state is read only after both were handled): otherwise a legacy tools/list / tools/call / ping /
+// unknown method is put in between.
+func gateSeparateInit(g *gateGen, c *gateCase) {
+	var out []gateMsg
+	for k, m := range c.msgs {
+		out = append(out, m)
+		if m.method != "initialize" || k+1 >= len(c.msgs) {
+			continue
+		}
+		nx := c.msgs[k+1]
+		switch nx.method {
+		case "initialize", "notifications/initialized", "logging/setLevel", "server/discover":
+		default:
+			if nx.meta == "nometa" {
+				continue
+			}
+		}
+		filler := []string{"tools/list", "tools/call", "ping", "foo/bar", "prompts/get", "resources/read"}[g.rng.Intn(6)]
+		out = append(out, g.msg("s", filler, 60+len(out), "legacy"))
+	}
+	c.msgs = out
 }
 
 func (g *gateGen) clientCase(id string) gateCase {
@@ -1015,6 +1051,8 @@ type gateRec struct {
 	panicked bool
 	gate     chan struct{} // hold mode: notification handlers park on it (nil: they return at once)
 	parked   int           // handlers parked right now
+	initGate chan struct{} // holdinit mode: the middleware parks `initialize` on it (nil: not armed)
+	initHeld int           // initialize calls parked right now
 }
 
 // park is called by a notification handler after it recorded its invocation.
@@ -1063,6 +1101,21 @@ func (r *gateRec) middleware() Middleware {
 	return func(next MethodHandler) MethodHandler {
 		return func(ctx context.Context, method string, req Request) (res Result, err error) {
 			r.addMW(method)
+			if method == "initialize" {
+				r.mu.Lock()
+				g := r.initGate
+				r.initGate = nil // one at a time: re-armed by the harness
+				if g != nil {
+					r.initHeld++
+				}
+				r.mu.Unlock()
+				if g != nil {
+					<-g
+					r.mu.Lock()
+					r.initHeld--
+					r.mu.Unlock()
+				}
+			}
 			defer func() {
 				if x := recover(); x != nil {
 					r.mu.Lock()
@@ -1414,6 +1467,52 @@ func gateRunCase(t *testing.T, c gateCase, emit func(i int, obs string), poisone
 			emit(-2, "ok")
 		}
 		defer rec.release(false)
+		var initGate chan struct{}
+		armInit := func() {
+			if c.holdinit && ss != nil {
+				initGate = make(chan struct{})
+				rec.mu.Lock()
+				rec.initGate = initGate
+				rec.mu.Unlock()
+			}
+		}
+		releaseInit := func() {
+			rec.mu.Lock()
+			rec.initGate = nil
+			rec.mu.Unlock()
+			if initGate != nil {
+				close(initGate)
+				initGate = nil
+			}
+		}
+		defer releaseInit()
+		if c.holdinit && ss != nil {
+			emit(-3, "ok")
+		}
+		armInit()
+		snap := func() string {
+			st := "-/0/"
+			if ss != nil {
+				ss.mu.Lock()
+				state := ss.state
+				ss.mu.Unlock()
+				ip := "-"
+				if p := state.InitializeParams; p != nil {
+					name := "anon"
+					if p.ClientInfo != nil {
+						name = p.ClientInfo.Name
+					}
+					ip = hxs(name) + "@" + hxs(p.ProtocolVersion)
+				}
+				id := 0
+				if state.InitializedParams != nil {
+					id = 1
+				}
+				st = fmt.Sprintf("%s/%d/%s", ip, id, hxs(string(state.LogLevel)))
+			}
+			return st
+		}
+		pend := -1 // index of the envelope whose initialize is parked in the middleware
 		for i, m := range c.msgs {
 			if stuck {
 				continue // nothing is recorded after a crash or a teardown
@@ -1438,6 +1537,64 @@ func gateRunCase(t *testing.T, c gateCase, emit func(i int, obs string), poisone
 				stuck = true
 				emit(i, "stuck")
 				c2.Close()
+				continue
+			}
+			if c.holdinit && pend < 0 && i+1 < len(c.msgs) {
+				rec.mu.Lock()
+				held := rec.initHeld
+				rec.mu.Unlock()
+				if held > 0 {
+					pend = i // its record is written together with the next envelope's
+					continue
+				}
+			}
+			if pend >= 0 {
+				// this envelope was written while the initialize of envelope pend is still in its handler chain
+				pm := c.msgs[pend]
+				midMW, midUH, _ := rec.take()
+				midResps := peer.takeResps()
+				releaseInit()
+				synctest.Wait()
+				mw2, uh2, panicked2 := rec.take()
+				lateResps := peer.takeResps()
+				idP, idI := gateEnvID(pm.raw), gateEnvID(m.raw)
+				var rp, ri, midI []map[string]json.RawMessage
+				for k, r := range append(append([]map[string]json.RawMessage{}, midResps...), lateResps...) {
+					if pm.hasID && string(r["id"]) == idP {
+						rp = append(rp, r)
+					} else {
+						ri = append(ri, r)
+						if k < len(midResps) {
+							midI = append(midI, r)
+						}
+					}
+				}
+				mwAll := append(append([]string{}, midMW...), mw2...)
+				var mwP, mwI, midOther []string
+				for k, x := range mwAll {
+					if len(mwP) == 0 && x == "initialize" {
+						mwP = append(mwP, x)
+						continue
+					}
+					mwI = append(mwI, x)
+					if k < len(midMW) {
+						midOther = append(midOther, x)
+					}
+				}
+				st := snap()
+				emit(-1000-pend, fmt.Sprintf("mw=%s uh=%s w=%s", gateJoin(midOther), gateJoin(midUH), gateWire1(midI, idI, m.hasID)))
+				wP, rvP := gateWire(rp, idP, pm.hasID, pm.method)
+				emit(pend, fmt.Sprintf("w=%s mw=%s uh=%s st=%s rv=%s", wP, gateJoin(mwP), "-", st, rvP))
+				pend = -1
+				if panicked2 {
+					emit(i, "panic")
+					poisoned()
+					stuck = true
+					continue
+				}
+				wI, rvI := gateWire(ri, idI, m.hasID, m.method)
+				emit(i, fmt.Sprintf("w=%s mw=%s uh=%s st=%s rv=%s", wI, gateJoin(mwI), gateJoin(append(midUH, uh2...)), st, rvI))
+				armInit()
 				continue
 			}
 			mw, uh, panicked := rec.take()
@@ -1472,6 +1629,7 @@ func gateRunCase(t *testing.T, c gateCase, emit func(i int, obs string), poisone
 			emit(i, fmt.Sprintf("w=%s mw=%s uh=%s st=%s rv=%s", w, gateJoin(mw), gateJoin(uh), st, rv))
 		}
 		// tear down: everything in the bubble must exit
+		releaseInit()
 		rec.release(false)
 		synctest.Wait()
 		if ss != nil {
@@ -1494,7 +1652,7 @@ func gateRunCase(t *testing.T, c gateCase, emit func(i int, obs string), poisone
 func gateWriteCases(path string, cases []gateCase) error {
 	var b strings.Builder
 	for _, c := range cases {
-		fmt.Fprintf(&b, "case %s tag=%s tr=%s hold=%v\n", c.id, c.tag, c.tr, c.hold)
+		fmt.Fprintf(&b, "case %s tag=%s tr=%s hold=%v hi=%v\n", c.id, c.tag, c.tr, c.hold, c.holdinit)
 		for _, m := range c.msgs {
 			b.WriteString(m.op() + "\t" + strings.Join(m.tags, ",") + "\n")
 		}
@@ -1519,6 +1677,8 @@ func gateReadCases(path string) ([]gateCase, error) {
 					c.tr = v
 				} else if v, ok := strings.CutPrefix(kv, "hold="); ok {
 					c.hold = v == "true"
+				} else if v, ok := strings.CutPrefix(kv, "hi="); ok {
+					c.holdinit = v == "true"
 				}
 			}
 			out = append(out, c)
@@ -1671,14 +1831,35 @@ func gateExecute(t *testing.T, out *verifOut, cases []gateCase) {
 			}
 			out.line(c.id, "hold", o, "cfg", "hold")
 		}
+		if c.holdinit {
+			o, ok := obs(-3)
+			if !ok {
+				return
+			}
+			out.line(c.id, "holdinit", o, "cfg", "holdinit")
+		}
 		for i, m := range c.msgs {
 			o, ok := obs(i)
 			if !ok {
 				break
 			}
+			if mo, ok := obs(-1000 - i); ok && i+1 < len(c.msgs) {
+				// what was visible of the NEXT envelope while this initialize was still being handled
+				nx := c.msgs[i+1]
+				kind := "legacy"
+				if strings.HasPrefix(nx.meta, "v") && (nx.shape == "ok" || nx.shape == "degraded" || nx.shape == "undecodable") {
+					if f := strings.Split(nx.meta[1:], ":"); gateUnhex(f[0]) >= "2026-07-28" {
+						kind = "new"
+					}
+				}
+				out.line(c.id, "mid m="+hxs(nx.method)+" "+kind, mo, "mid", "sched-holdinit")
+			}
 			tags := gateTagsFor(m, o, c.tag)
 			if c.hold {
 				tags = append(tags, "sched-hold")
+			}
+			if c.holdinit {
+				tags = append(tags, "sched-holdinit")
 			}
 			out.line(c.id, m.op(), o, tags...)
 		}
@@ -1761,6 +1942,13 @@ func gateReplayCases(path, id, tag string) []gateCase {
 				out = append(out, gateCase{id: id + "-0", tag: tag})
 			}
 			out[len(out)-1].tr = f[1]
+			continue
+		}
+		if ln == "holdinit" {
+			if len(out) == 0 {
+				out = append(out, gateCase{id: id + "-0", tag: tag})
+			}
+			out[len(out)-1].holdinit = true
 			continue
 		}
 		if ln == "hold" {
@@ -1948,6 +2136,24 @@ func gateCases(side string) []gateCase {
 			held[i].hold = true
 		}
 		cases = append(cases, held...)
+		// initialize held in its handler chain while the next envelope arrives: initialize followed by every letter
+		// that cannot change session state, then a listing and a ping
+		for _, c := range gateExhaustive(2, "plain", "xi", false) {
+			if c.msgs[0].method != "initialize" || len(c.msgs) < 2 {
+				continue
+			}
+			switch c.msgs[1].method {
+			case "initialize", "notifications/initialized", "logging/setLevel", "server/discover":
+				continue
+			}
+			if c.msgs[1].meta != "nometa" {
+				continue
+			}
+			c.holdinit = true
+			gi := &gateGen{rng: rand.New(rand.NewSource(int64(len(cases)) + 313))}
+			c.msgs = append(c.msgs, gi.msg("s", "tools/list", 70, "legacy"), gi.msg("s", "ping", 71, "legacy"))
+			cases = append(cases, c)
+		}
 		for _, tr := range [][2]string{{"ge:" + hxs("2026-07-28"), "xn"}, {"set:-", "xe"}, {gateTrSet("2025-03-26"), "xo"}, {"lt:" + hxs("2026-07-28"), "xl"}} {
 			cases = append(cases, gateExhaustive(2, tr[0], tr[1], false)...)
 			if verifThorough() {
